@@ -34,3 +34,15 @@ claimed["C09"] = dict(
     text="For every reachable triple within the depth bound and every argument of the alphabet (incl. directory names that are substrings of other tracked names and a name with a regexp metacharacter), restore leaves exactly the named tracked files byte-identical to their staged blobs (present on disk or not), restore --staged leaves exactly the named entries equal to HEAD's, nothing else changes, and a path known to neither is refused with the state unchanged.",
     note="Trusted: gitfmt and engine/model.go. Exit status of a no-op restore --staged is left open, as the statement is silent.",
 )
+claimed["C13"] = dict(
+    category="model_checking",
+    technique="explicit-state BFS over worktree edits (add, same-length edit, delete, remove directory, nested create) x index states x .goitignore present/absent; status probed in every state (also after changing every file's timestamp) and compared with set expressions over independently decoded index and worktree bytes",
+    text="In every reachable state within the depth bound, the parsed 'Changes not staged for commit' and 'Untracked files' sections equal exactly {modified: tracked with different blob id, deleted: tracked and missing, untracked: on disk, not tracked, not ignored, outside .goit}; the report is identical after every timestamp was changed; unborn repositories included.",
+    note="Trusted: gitfmt, the status parser. Ignore matching is judged only where the statement is unambiguous (top-level name/ entries, *.ext); other paths are left open.",
+)
+claimed["C17"] = dict(
+    category="model_checking",
+    technique="explicit-state BFS over worktrees x four .goitignore contents x every add argument form ('.', './', parent directory, 'sub/..', the ignored path itself, .goit, .goit/HEAD, look-alike names my.goit/ goit/ a.logx), repeated after .goit has grown; reference model for add, invariant on every state, byte snapshot of .goit around reset --hard / restore",
+    text="In every reachable state no staged path lies inside .goit; every add leaves exactly the model's staging area (ignored and metadata paths never staged, nothing else skipped; with no ignore file every file outside .goit is staged by 'add .'); status hides exactly ignored and metadata paths; reset --hard and restore change nothing inside .goit except index, current branch and logs.",
+    note="Trusted: gitfmt, engine/model.go ignore rules (unambiguous cases only).",
+)
